@@ -8,6 +8,7 @@ CONSTANT AOs = {TRUE, FALSE}
 CONSTANT MaxPending = 1
 CONSTANT MaxInter = 2
 CONSTANT Acts <- AllActs
+CONSTANT PurgeRace = FALSE
 CONSTANT RecordReads = FALSE
 CONSTANT HitSteps = FALSE
 SPECIFICATION Spec
@@ -16,7 +17,9 @@ INVARIANT Asc
 INVARIANT OnePerDoc
 INVARIANT Complete
 INVARIANT ReadCorrect
+INVARIANT PurgedNotServed
 INVARIANT ReadCorrectAll
+INVARIANT PurgedNotServedAll
 INVARIANT DocsIndex
 INVARIANT VFBound
 INVARIANT LenBound
